@@ -53,10 +53,11 @@ def lstsq(x: np.ndarray, y: np.ndarray):
     x_y_sum = 0.0
 
     for i in range(n):
-        x_sum += x[i]
-        y_sum += y[i]
-        x_sq_sum += x[i] ** 2
-        x_y_sum += x[i] * y[i]
+        xi, yi = np.float64(x[i]), np.float64(y[i])  # float32 sums of squares cancel catastrophically
+        x_sum += xi
+        y_sum += yi
+        x_sq_sum += xi * xi
+        x_y_sum += xi * yi
 
     slope = (n * x_y_sum - x_sum * y_sum) / (n * x_sq_sum - x_sum**2)
     intercept = (y_sum - slope * x_sum) / n
